@@ -244,14 +244,14 @@ theorem masked_cell (x : Input) (h : Shape x) (val : Int → Int → Int → Cel
     have hmL := maskRaster_eq (half x.w) x.L.rows x.L.cols x.mL r c hinL
     rw [← hw] at hmL
     rw [hmL, maskShift_eq x h r c k hl hr]
-    cases maskOk (half x.w) x.mL r c <;> cases maskOkR x r c k <;> simp [hl, hr, Cell.addMask, addMask_nan]
+    cases maskOk (half x.w) x.mL r c <;> cases maskOkR x r c k <;> simp [hl, hr, Cell.addMask]
   · rw [if_neg hin]
     have : ¬ (LeftInside x r c ∧ RightInside x c k ∧ maskOk (half x.w) x.mL r c = true ∧ maskOkR x r c k = true) :=
       fun hc => hin ⟨hc.1, hc.2.1⟩
     rw [if_neg this]
     split
     · simp only [addMask_nan]
-      split <;> simp [addMask_nan]
+      split <;> simp
     · rfl
 
 end Pandora.MC
